@@ -11,7 +11,8 @@ except ImportError:
 LEAN_MODULES = parts_c02b.LEAN_MODULES + (C02_kernel.LEAN_MODULES if C02_kernel else [])
 
 MANIFEST = dict(
-    text="(b) chains: proved in Lean for arbitrary chains of catalogue rows - every stage that can be fed from several goroutines emits into a locking subscriber whatever follows it "
+    text="Regenerated on every run and decided by the kernel (RoProps/C02b): the constructor of every operator (Catalogue), the concurrency mode behind every public constructor (ctor_modes, mode_impl) and every observable / subscriber constructor call in the core outside the operator files (ctor_sites: subjects wrap their subscriber with the safe NewSubscriber, connectables are built with the default constructors - a subject handing out an unsafe view of itself is a new row). "
+         "(b) chains: proved in Lean for arbitrary chains of catalogue rows - every stage that can be fed from several goroutines emits into a locking subscriber whatever follows it "
          "(chain_serialized; the subscriber a stage emits into is the one created by the most downstream operator of the run of pass-through operators directly downstream of it, because "
          "newSubscriberImpl reuses a destination that already is a Subscriber) - from a per-row predicate decided by the kernel on the table regenerated from the source on every run "
          "(constructor mode, pass-through, number of emission contexts of every operator body): table_strict, chain_serialized_table. On the pinned tree five pass-through operators were built with the "
